@@ -24,12 +24,12 @@ import (
 
 	sdkmath "cosmossdk.io/math"
 	sdk "github.com/cosmos/cosmos-sdk/types"
+	"github.com/cosmos/cosmos-sdk/types/bech32"
 	sdkerrors "github.com/cosmos/cosmos-sdk/types/errors"
 	authtypes "github.com/cosmos/cosmos-sdk/x/auth/types"
 	banktypes "github.com/cosmos/cosmos-sdk/x/bank/types"
 	govtypes "github.com/cosmos/cosmos-sdk/x/gov/types"
 	minttypes "github.com/cosmos/cosmos-sdk/x/mint/types"
-	"github.com/cosmos/cosmos-sdk/types/bech32"
 	"github.com/palomachain/paloma/v2/verifharness/emit"
 	tftypes "github.com/palomachain/paloma/v2/x/tokenfactory/types"
 )
@@ -45,6 +45,17 @@ type opRec struct {
 	Tag      int64  `json:"tag,omitempty"`
 	BadMeta  bool   `json:"bad_meta,omitempty"`
 	Outcome  string `json:"outcome,omitempty"` // filled in when executed
+	// second round (extended histories): kinds raw:<kind>, wcreate wmint wburn wchadmin wsetmeta, params, genesis
+	Contract  int      `json:"contract,omitempty"`  // which contract sends a w* op
+	HasMd     bool     `json:"has_md,omitempty"`    // wcreate carries metadata
+	MdBase    string   `json:"md_base,omitempty"`   // metadata.Base as written by the contract
+	Authority string   `json:"authority,omitempty"` // params: MsgUpdateParams.Authority
+	NewFee    []feeRec `json:"new_fee,omitempty"`   // params: the coins as written (possibly invalid)
+}
+
+type feeRec struct {
+	Denom  string `json:"denom"`
+	Amount string `json:"amount"`
 }
 
 type setup struct {
@@ -53,6 +64,8 @@ type setup struct {
 	Ops   []opRec  `json:"ops"`
 	Seed  int64    `json:"seed,omitempty"`
 	Index int      `json:"index,omitempty"`
+	Ext   bool     `json:"ext,omitempty"` // extended history (bindings, raw calls, params, genesis)
+	Raw   bool     `json:"raw,omitempty"` // contains raw msg-server calls: the delivery oracle is off
 }
 
 const (
@@ -61,7 +74,7 @@ const (
 )
 
 var outcomeName = map[int]string{0: "ok", 1: "validate", 2: "notexist", 3: "unauthorized", 4: "invaliddenom", 5: "exists",
-	6: "hassupply", 7: "naming", 8: "funds", 9: "blocked", 10: "addr", 11: "meta", 12: "panic", 99: "other"}
+	6: "hassupply", 7: "naming", 8: "funds", 9: "blocked", 10: "addr", 11: "meta", 12: "panic", 13: "badrequest", 99: "other"}
 
 type hist struct {
 	e       *env
@@ -82,6 +95,10 @@ type hist struct {
 	nOK     int
 	nRej    int
 	st      setup
+	// second round
+	x      *xext               // non-nil: extended history (chain_test.go)
+	idx    map[string][]string // ghost of the creator -> denoms index, by the creator string as written
+	addrBy map[int64]sdk.AccAddress
 }
 
 func userAddr(i int) sdk.AccAddress {
@@ -98,16 +115,18 @@ func userAddr(i int) sdk.AccAddress {
 
 func newHist(t testing.TB, run *emit.Run, st setup) *hist {
 	h := &hist{e: newEnv(t), run: run, sidx: map[string]int{}, acctID: map[string]int64{}, nextID: 200,
-		isCreat: map[string]bool{}, ghost: map[string]*big.Int{}, st: st}
+		isCreat: map[string]bool{}, ghost: map[string]*big.Int{}, st: st, idx: map[string][]string{}, addrBy: map[int64]sdk.AccAddress{}}
 	for i := 0; i < st.Users; i++ {
 		a := userAddr(i)
 		h.users = append(h.users, a)
 		h.acctID[string(a)] = int64(i + 1)
+		h.addrBy[int64(i+1)] = a
 		h.watch = append(h.watch, int64(i+1))
 		h.watchA = append(h.watchA, a)
 	}
 	h.acctID[string(h.e.tfMod)] = idTF
 	h.acctID[string(h.e.dsMod)] = idDistr
+	h.addrBy[idTF], h.addrBy[idDistr] = h.e.tfMod, h.e.dsMod
 	h.watch = append(h.watch, idTF, idDistr)
 	h.watchA = append(h.watchA, h.e.tfMod, h.e.dsMod)
 	var fee sdk.Coins
@@ -139,6 +158,7 @@ func (h *hist) idOf(a sdk.AccAddress) int64 {
 	}
 	h.nextID++
 	h.acctID[string(a)] = h.nextID
+	h.addrBy[h.nextID] = a
 	return h.nextID
 }
 
@@ -276,6 +296,11 @@ func (h *hist) deliver(kind string, vb func() error, call func(ctx sdk.Context) 
 }
 
 func (h *hist) violate(id, what string) {
+	if h.x != nil && h.x.raw && id != "C16:unclassified-error" {
+		// raw histories call the msg server as nobody on the chain can: only model = code is checked
+		h.run.Count("raw-history-oracle-off", id)
+		return
+	}
 	st := h.st
 	st.Ops = append([]opRec{}, h.ops...)
 	h.run.Violate(id, what, st)
@@ -295,6 +320,8 @@ func (h *hist) exec(r opRec) {
 	case "create":
 		target = strings.Join([]string{"factory", r.Sender, r.Denom}, "/")
 		before = h.observe(target)
+		snap := h.feeSnap(r.Sender)
+		defer func() { h.feeOracle(r.Kind, r.Sender, code == 0, snap) }()
 		m := tftypes.NewMsgCreateDenom(r.Sender, r.Denom)
 		code, ret = h.deliver(r.Kind, m.ValidateBasic, func(c sdk.Context) (string, error) {
 			resp, err := h.e.srv.CreateDenom(c, m)
@@ -397,6 +424,9 @@ func (h *hist) exec(r opRec) {
 	// ---- direct oracle on the real state ----
 	after := h.observe(target)
 	h.oracle(r, code, ret, amt, target, before, after)
+	if h.x != nil && h.x.raw && (r.Kind == "mint" || r.Kind == "burn") && sdk.ValidateDenom(target) == nil {
+		h.ghost[target] = h.e.bk.GetSupply(h.e.ctx, target).Amount.BigInt()
+	}
 
 	// ---- model step ----
 	nd := -1
@@ -411,6 +441,10 @@ func (h *hist) exec(r opRec) {
 		}
 		seen[d] = true
 		obs = append(obs, h.obsTerm(h.observe(d)))
+	}
+	if h.x != nil {
+		h.steps = append(h.steps, fmt.Sprintf("XStep (XK (%s)) %d %d %s %s", term, code, nd+1, emit.List(obs), emit.List(h.extObs(r, code))))
+		return
 	}
 	h.steps = append(h.steps, fmt.Sprintf("Step (%s) %d %d %s", term, code, nd+1, emit.List(obs)))
 }
@@ -493,6 +527,7 @@ func (h *hist) oracle(r opRec, code int, ret string, amt *big.Int, target string
 			}
 			h.isCreat[ret] = true
 			h.created = append(h.created, ret)
+			h.indexOracle(r.Sender, ret)
 		}
 		if before.supply.Cmp(after.supply) != 0 {
 			h.violate("C16:supply-delta", fmt.Sprintf("create changed the supply of %q", target))
@@ -510,6 +545,9 @@ func (h *hist) oracle(r opRec, code int, ret string, amt *big.Int, target string
 }
 
 func (h *hist) finish(nontrivialMin int) {
+	if h.x != nil {
+		h.xPrepare()
+	}
 	// final observation of every denom string the history mentioned
 	var fee []string
 	for _, f := range h.fee {
@@ -556,6 +594,11 @@ func (h *hist) finish(nontrivialMin int) {
 	}
 	term := fmt.Sprintf("CHist %s %s %d %d %s %s %s %s %s", emit.List(strs), emit.List(book), idTF, idDistr,
 		emit.List(blocked), emit.List(fee), emit.List(watch), emit.List(h.steps), emit.List(final))
+	if h.x != nil {
+		term = fmt.Sprintf("CHist2 %s %s %s %d %d %s %s %d %s %s %s %s", emit.List(strs), emit.List(book), emit.List(h.x.names),
+			idTF, idDistr, emit.List(blocked), emit.List(h.x.fee0), h.x.authIdx, emit.List(watch), emit.List(h.steps),
+			emit.List(final), emit.List(h.x.finalExt))
+	}
 	var sample any
 	if h.run.NCases() < 3 {
 		st := h.st
@@ -788,17 +831,38 @@ func TestCorr(t *testing.T) {
 		}
 		ops := st.Ops
 		st.Ops = nil
-		h := newHist(t, run, st)
+		var h *hist
+		if st.Ext {
+			h = newXHist(t, run, st, 2)
+		} else {
+			h = newHist(t, run, st)
+		}
 		h.fund()
+		if st.Ext {
+			h.fundContracts()
+		}
 		for _, o := range ops {
 			o.Sender, o.Denom, o.NewAdmin, o.To = h.expand(o.Sender), h.expand(o.Denom), h.expand(o.NewAdmin), h.expand(o.To)
-			h.exec(o)
+			o.MdBase, o.Authority = h.expand(o.MdBase), h.expand(o.Authority)
+			for i := range o.NewFee {
+				o.NewFee[i].Denom = h.expand(o.NewFee[i].Denom)
+			}
+			if st.Ext {
+				h.xexec(o)
+			} else {
+				h.exec(o)
+			}
 		}
 		h.finish(1)
 		run.Count("source", "corpus")
 	}
 
-	for i := 0; run.NCases() < run.N; i++ {
+	// is there a way to the msg server around ValidateBasic? (real router, real authz keeper)
+	gateValidateBasic(t, run)
+
+	// first-round histories: 5/8 of the budget (400 of the quick tier's 640, as before)
+	oldN := run.N * 5 / 8
+	for i := 0; run.NCases() < oldN; i++ {
 		rng := rand.New(rand.NewSource(run.Rng.Int63()))
 		st := setup{Users: 3 + rng.Intn(3), Seed: run.Seed, Index: i}
 		switch rng.Intn(4) {
@@ -826,7 +890,39 @@ func TestCorr(t *testing.T) {
 		h.finish(2)
 		run.Count("source", "generated")
 	}
-	if err := run.Finish("TokenFactory.Ledger TokenFactory.Denom TokenFactory.Factory Corr.C16", "Corr.C16.case", "Corr.C16.check"); err != nil {
+
+	// second-round histories: bindings, params, genesis round trips; one in four also raw calls
+	for i := 0; run.NCases() < run.N; i++ {
+		rng := rand.New(rand.NewSource(run.Rng.Int63()))
+		st := setup{Users: 3 + rng.Intn(2), Seed: run.Seed, Index: i, Ext: true, Raw: rng.Intn(4) == 0}
+		switch rng.Intn(4) {
+		case 0:
+		case 1:
+			st.Fee = []string{"10ugrain"}
+		case 2:
+			st.Fee = []string{"1ugrain"}
+		default:
+			st.Fee = []string{"7ugrain", "3uusdc"}
+		}
+		h := newXHist(t, run, st, 2)
+		h.fund()
+		h.fundContracts()
+		hostileRate := 20
+		if search || rng.Intn(5) == 0 {
+			hostileRate = 45
+		}
+		n := 10 + rng.Intn(19)
+		for j := 0; j < n; j++ {
+			h.xexec(h.nextX(rng, hostileRate))
+		}
+		h.finish(2)
+		if st.Raw {
+			run.Count("source", "generated-ext-raw")
+		} else {
+			run.Count("source", "generated-ext")
+		}
+	}
+	if err := run.Finish("TokenFactory.Ledger TokenFactory.Denom TokenFactory.Factory TokenFactory.Chain Corr.C16", "Corr.C16.case", "Corr.C16.check"); err != nil {
 		t.Fatal(err)
 	}
 }
@@ -841,6 +937,12 @@ func (h *hist) expand(s string) string {
 		s = strings.ReplaceAll(s, fmt.Sprintf("@U%d", i), strings.ToUpper(u.String()))
 		s = strings.ReplaceAll(s, fmt.Sprintf("@%d", i), u.String())
 	}
+	if h.x != nil {
+		for i, c := range h.x.contracts {
+			s = strings.ReplaceAll(s, fmt.Sprintf("@c%d", i), c.String())
+		}
+	}
+	s = strings.ReplaceAll(s, "@gov", h.e.authority)
 	return strings.ReplaceAll(s, "@tf", h.e.tfMod.String())
 }
 
